@@ -74,11 +74,10 @@ impl BlockEncoder {
             self.read_window();
 
             if self.blocks.is_empty() {
-                if self.nb_pkt_sent == 0 {
-                    log::debug!("Empty file ? Send a pkt containing close object flag");
+                if self.nb_pkt_sent == 0 && self.file.object.transfer_length == 0 {
+                    log::debug!("Empty file, send a pkt containing close object flag");
                     self.nb_pkt_sent += 1;
 
-                    debug_assert!(self.file.object.transfer_length == 0);
                     return Some(pkt::Pkt {
                         payload: Vec::new(),
                         transfer_length: self.file.object.transfer_length,
@@ -92,6 +91,15 @@ impl BlockEncoder {
                         source_block_length: 0,
                         sender_current_time: self.file.sender_current_time,
                     });
+                }
+
+                if self.nb_pkt_sent == 0 {
+                    // The object is not empty but no source block could be read (stream read error)
+                    // or encoded: nothing is sent, in particular not the packet of an empty object
+                    log::error!(
+                        "No source block available, nothing is transferred for {}",
+                        self.file.object.content_location
+                    );
                 }
 
                 return None;
